@@ -220,6 +220,14 @@ Record wcase := WQCase {
   c_script : list (stim * obs)
 }.
 
+(* a case given by the option list passed to NewQueue (in argument order) and the machine's NumCPU: W and L are the
+   model's effective configuration ([effective]: defaults, last option of each kind wins) *)
+Inductive zopt := OWorkers (n : Z) | OLength (n : Z).
+Definition qopt_of (o : zopt) : qopt := match o with OWorkers k => OptWorkers (n k) | OLength k => OptLength (n k) end.
+Definition WQOpts (ncpu : Z) (opts : list zopt) (sc : list (stim * obs)) : wcase :=
+  let cfg := effective (n ncpu) (map qopt_of opts) in
+  WQCase (Z.of_nat (fst cfg)) (Z.of_nat (snd cfg)) sc.
+
 (* result of a replay: 0 = every observation is among the model's; k+1 = first mismatch at stimulus k,
    together with the model's candidate states just before it and the model's predictions for it *)
 Fixpoint replay_from (k : nat) (vals : avals) (cands : list state) (sc : list (stim * obs))
